@@ -19,6 +19,11 @@ int main(void)
       srand_(seed);
       KMeans(m, ncl, (int)init, l, c, nth);
       pr_uivector("labels", l); pr_matrix("centroids", c);
+      reuse_mask = 0;
+      if(init == 2 || init == 3){ /* deterministic initialisers: the same call into labels/centroids that already hold a result */
+        uivector *kl; matrix *kc = dup_matrix(c); size_t q_; NewUIVector(&kl, l->size); for(q_ = 0; q_ < l->size; q_++) kl->data[q_] = l->data[q_];
+        KMeans(m, ncl, (int)init, l, c, nth); RB(0, same_u(l, kl) && same_m(c, kc)); DelUIVector(&kl); DelMatrix(&kc); }
+      pr_long("reuse_bad", reuse_mask);
       DelUIVector(&l); DelMatrix(&c); DelMatrix(&m);
     }
     else{ fprintf(stderr, "unknown op %s\n", op); return 2; }
